@@ -344,6 +344,8 @@ extern crate alloc;
 extern crate std;
 
 pub use crate::parser::Parser;
+#[cfg(pest_parser_pest_verif)]
+pub use crate::parser_state::verif;
 pub use crate::parser_state::{
     set_call_limit, set_error_detail, state, Atomicity, Lookahead, MatchDir, ParseResult,
     ParserState,
